@@ -67,7 +67,7 @@ use barter_data::{
     },
     transformer::ExchangeTransformer,
 };
-use barter_data::streams::builder::dynamic::indexed::index_market_data_subscription_batches;
+use barter_data::{process_buffered_events, streams::builder::dynamic::indexed::index_market_data_subscription_batches};
 use barter_instrument::{
     Keyed, Side, Underlying,
     asset::Asset,
@@ -280,22 +280,15 @@ fn universe(ikind: &str) -> Vec<MarketDataInstrument> {
 // ------------------------------------------------------------------------------------------------
 /// instrument keys: the spec's key n (1..NMARKETS) as the flavour's key type
 trait KeyNum: Clone + std::fmt::Debug + PartialEq + Send + Sync + 'static {
-    fn from_num(n: u32) -> Self;
     fn num(&self) -> i64;
 }
 impl KeyNum for u32 {
-    fn from_num(n: u32) -> Self {
-        n
-    }
     fn num(&self) -> i64 {
         *self as i64
     }
 }
 /// `InstrumentIndex(i)` is the spec's key i + 1
 impl KeyNum for InstrumentIndex {
-    fn from_num(n: u32) -> Self {
-        InstrumentIndex(n as usize - 1)
-    }
     fn num(&self) -> i64 {
         self.0 as i64 + 1
     }
@@ -303,21 +296,24 @@ impl KeyNum for InstrumentIndex {
 
 trait Flavour: InstrumentData<Key: KeyNum> + 'static {
     const NAME: &'static str;
-    /// the instruments to subscribe for `markets` (in that order); market m gets key `key_of(m, off)`
-    fn instruments(route: &Route, uni: &[MarketDataInstrument], names: &[String], markets: &[usize], off: i64) -> Result<Vec<Self>, String>;
+    /// the instruments to subscribe, one per slot (market, key) in that order (a market repeated in
+    /// two consecutive slots is subscribed twice)
+    fn instruments(route: &Route, uni: &[MarketDataInstrument], names: &[String], slots: &[(usize, u32)], off: i64) -> Result<Vec<Self>, String>;
 }
 impl Flavour for Keyed<u32, MarketDataInstrument> {
     const NAME: &'static str = "keyed";
-    fn instruments(_: &Route, uni: &[MarketDataInstrument], _: &[String], markets: &[usize], off: i64) -> Result<Vec<Self>, String> {
-        Ok(markets.iter().map(|m| Keyed::new(key_of(*m, off), uni[*m - 1].clone())).collect())
+    fn instruments(_: &Route, uni: &[MarketDataInstrument], _: &[String], slots: &[(usize, u32)], off: i64) -> Result<Vec<Self>, String> {
+        let _ = off;
+        Ok(slots.iter().map(|(m, key)| Keyed::new(*key, uni[*m - 1].clone())).collect())
     }
 }
 impl Flavour for MarketInstrumentData<u32> {
     const NAME: &'static str = "named";
-    fn instruments(_: &Route, uni: &[MarketDataInstrument], names: &[String], markets: &[usize], off: i64) -> Result<Vec<Self>, String> {
-        Ok(markets
+    fn instruments(_: &Route, uni: &[MarketDataInstrument], names: &[String], slots: &[(usize, u32)], off: i64) -> Result<Vec<Self>, String> {
+        let _ = off;
+        Ok(slots
             .iter()
-            .map(|m| MarketInstrumentData { key: key_of(*m, off), name_exchange: InstrumentNameExchange::new(names[*m - 1].as_str()), kind: uni[*m - 1].kind.clone() })
+            .map(|(m, key)| MarketInstrumentData { key: *key, name_exchange: InstrumentNameExchange::new(names[*m - 1].as_str()), kind: uni[*m - 1].kind.clone() })
             .collect())
     }
 }
@@ -325,10 +321,11 @@ impl Flavour for MarketInstrumentData<u32> {
 /// `IndexedInstruments` collection holding the whole universe of the route (sorted by the builder on
 /// the internal name, which is chosen so that market m gets `InstrumentIndex(key_of(m, off) - 1)`),
 /// then the real `index_market_data_subscription_batches` turns the un-indexed subscriptions of
-/// `markets` into `Keyed<InstrumentIndex, MarketDataInstrument>` subscriptions.
+/// the slots into `Keyed<InstrumentIndex, MarketDataInstrument>` subscriptions (the index comes from
+/// the indexer: a market repeated in two slots gets the same index twice).
 impl Flavour for Keyed<InstrumentIndex, MarketDataInstrument> {
     const NAME: &'static str = "indexed";
-    fn instruments(route: &Route, uni: &[MarketDataInstrument], names: &[String], markets: &[usize], off: i64) -> Result<Vec<Self>, String> {
+    fn instruments(route: &Route, uni: &[MarketDataInstrument], names: &[String], slots: &[(usize, u32)], off: i64) -> Result<Vec<Self>, String> {
         let ex = exchange_id(route.ex);
         let mut builder = IndexedInstruments::builder();
         for (j, mdi) in uni.iter().enumerate() {
@@ -358,7 +355,7 @@ impl Flavour for Keyed<InstrumentIndex, MarketDataInstrument> {
         }
         let indexed = builder.build();
         let batch: Vec<Subscription<ExchangeId, MarketDataInstrument, SubKind>> =
-            markets.iter().map(|m| Subscription::new(ex, uni[*m - 1].clone(), route.sub_kind())).collect();
+            slots.iter().map(|(m, _)| Subscription::new(ex, uni[*m - 1].clone(), route.sub_kind())).collect();
         let out = index_market_data_subscription_batches(&indexed, [batch]).map_err(|e| format!("indexing the subscriptions failed: {e}"))?;
         Ok(out.into_iter().flatten().map(|sub| sub.instrument).collect())
     }
@@ -786,6 +783,7 @@ async fn bfx_server() -> Bfx {
                 if ws.send(WsMessage::text(info.to_string())).await.is_err() {
                     return;
                 }
+                let mut seen = std::collections::HashSet::new();
                 while let Some(Ok(msg)) = ws.next().await {
                     let WsMessage::Text(text) = msg else { continue };
                     let Ok(v) = serde_json::from_str::<Value>(text.as_str()) else { continue };
@@ -793,6 +791,11 @@ async fn bfx_server() -> Bfx {
                         continue;
                     }
                     let symbol = echo_of(Fam::Bitfinex, v["symbol"].as_str().unwrap_or(""));
+                    // a second subscribe for a symbol already subscribed on this connection changes
+                    // nothing (the venue keeps the one channel)
+                    if !seen.insert(symbol.clone()) {
+                        continue;
+                    }
                     let channel = v["channel"].as_str().unwrap_or("").to_string();
                     // channel ids are per connection and unrelated to anything the client knows
                     let id = next.fetch_add(7, Ordering::SeqCst);
@@ -828,15 +831,29 @@ fn key_of(m: usize, off: i64) -> u32 {
     (((m as i64 - 1 + off) % NMARKETS as i64) + 1) as u32
 }
 
-fn make_subs<E, I, K>(route: &Route, kind: &K, uni: &[MarketDataInstrument], names: &[String], markets: &[usize], off: i64) -> Result<Vec<Subscription<E, I, K>>, String>
+/// one slot per subscription: market m with key `key_of(m, off)`; the repeated market `d` (0: none)
+/// occupies two consecutive slots - `dk` 1: the same instrument again, 2: a second instrument with
+/// the key NMARKETS + 1 that resolves to the same market
+fn slots_of(markets: &[usize], off: i64, d: usize, dk: i64) -> Vec<(usize, u32)> {
+    let mut v = vec![];
+    for m in markets {
+        v.push((*m, key_of(*m, off)));
+        if *m == d && dk > 0 {
+            v.push((*m, if dk == 2 { NMARKETS as u32 + 1 } else { key_of(*m, off) }));
+        }
+    }
+    v
+}
+
+fn make_subs<E, I, K>(route: &Route, kind: &K, uni: &[MarketDataInstrument], names: &[String], slots: &[(usize, u32)], off: i64) -> Result<Vec<Subscription<E, I, K>>, String>
 where
     E: Connector,
     I: Flavour,
     K: SubscriptionKind,
 {
-    let instruments = I::instruments(route, uni, names, markets, off)?;
-    if instruments.len() != markets.len() {
-        return Err(format!("{} instruments for {} subscribed markets", instruments.len(), markets.len()));
+    let instruments = I::instruments(route, uni, names, slots, off)?;
+    if instruments.len() != slots.len() {
+        return Err(format!("{} instruments for {} subscriptions", instruments.len(), slots.len()));
     }
     // the conversion DynamicStreams::init performs for the (ExchangeId, SubKind) arm
     Ok(instruments.into_iter().map(|i| Subscription::new(E::default(), i, kind.clone())).collect())
@@ -853,7 +870,7 @@ where
 {
     (1..=NMARKETS)
         .map(|m| {
-            let subs = make_subs::<E, I, K>(route, kind, uni, names, &[m], 0)?;
+            let subs = make_subs::<E, I, K>(route, kind, uni, names, &slots_of(&[m], 0, 0, 0), 0)?;
             let meta = WebSocketSubMapper::map::<E, I, K>(&subs);
             let toks = parse_requests(route.fam, &meta.ws_subscriptions)?;
             match toks.as_slice() {
@@ -872,6 +889,7 @@ async fn subscribe<E, I, K>(
     list: &[Listed],
     markets: &[usize],
     off: i64,
+    dup: (usize, i64),
     bfx: &Bfx,
 ) -> Result<Session<Tr<E, I, K>>, String>
 where
@@ -882,7 +900,7 @@ where
     Tr<E, I, K>: ExchangeTransformer<E, I::Key, K>,
     Subscription<E, I, K>: Identifier<E::Channel> + Identifier<E::Market>,
 {
-    let subs = make_subs::<E, I, K>(route, kind, uni, names, markets, off)?;
+    let subs = make_subs::<E, I, K>(route, kind, uni, names, &slots_of(markets, off, dup.0, dup.1), off)?;
     let meta = WebSocketSubMapper::map::<E, I, K>(&subs);
     let requests: Vec<String> = meta.ws_subscriptions.iter().map(|m| m.to_string()).collect();
     let mut map_ids: Vec<String> = meta.instrument_map.0.keys().map(|k| k.0.to_string()).collect();
@@ -892,7 +910,9 @@ where
     let mut asked: Vec<(String, String)> =
         parse_requests(route.fam, &meta.ws_subscriptions)?.into_iter().map(|(ch, mk)| (ch, echo_of(route.fam, &mk))).collect();
     let mut want: Vec<(String, String)> = markets.iter().map(|m| (list[*m - 1].channel.clone(), list[*m - 1].echo.clone())).collect();
+    // (a market subscribed twice may be requested once or twice)
     asked.sort();
+    asked.dedup();
     want.sort();
     // the venue subscribes what it was asked for; a symbol it does not list is refused
     if let Some(unknown) = asked.iter().find(|a| !list.iter().any(|l| (&l.channel, &l.echo) == (&a.0, &a.1))) {
@@ -916,7 +936,7 @@ where
         meta.instrument_map
     };
 
-    let keys: Vec<I::Key> = markets.iter().map(|m| I::Key::from_num(key_of(*m, off))).collect();
+    let keys: Vec<I::Key> = subs.iter().map(|s| s.instrument.key().clone()).collect();
     let snapshots = K::snapshots(&keys, E::ID);
     let (tx, _rx) = tokio::sync::mpsc::unbounded_channel();
     let transformer = <Tr<E, I, K> as ExchangeTransformer<E, I::Key, K>>::init(map, &snapshots, tx)
@@ -938,6 +958,9 @@ where
     Key: KeyNum,
     Ev: Proj,
 {
+    if WebSocketParser::parse::<T::Input>(Ok(WsMessage::Ping(vec![1u8].into()))).is_some() {
+        out.push(err("a ping frame is not skipped by the parser".to_string()));
+    }
     let input = match WebSocketParser::parse::<T::Input>(Ok(WsMessage::text(text.to_string()))) {
         Some(Ok(input)) => input,
         Some(Err(e)) => {
@@ -953,9 +976,38 @@ where
             return;
         }
     };
+    out.extend(results.into_iter().map(|r| project(route, r)));
+}
+
+/// The buffered path of `MarketStream::init`: frames received while the subscriptions were being
+/// validated are replayed through the new transformer by the public `process_buffered_events`.
+/// Ping / pong frames and a text frame no connector message type parses are skipped by design; the
+/// data messages must come out exactly as on the live path.
+fn feed_buffered<T, Key, Ev>(route: &Route, t: &mut T, texts: &[String], out: &mut Vec<Value>)
+where
+    T: Transformer<Output = MarketEvent<Key, Ev>, Error = DataError>,
+    Key: KeyNum,
+    Ev: Proj,
+{
+    let mut frames = vec![WsMessage::Ping(vec![1u8, 2, 3].into())];
+    frames.extend(texts.iter().map(|x| WsMessage::text(x.clone())));
+    frames.push(WsMessage::text(json!({"c13": "a frame that is not a market-data message"}).to_string()));
+    frames.push(WsMessage::Pong(vec![4u8].into()));
+    match catch(move || process_buffered_events::<WebSocketParser, T>(t, frames).into_iter().collect::<Vec<_>>()) {
+        Ok(results) => out.extend(results.into_iter().map(|r| project(route, r))),
+        Err(p) => out.push(err(format!("panic in process_buffered_events: {p}"))),
+    }
+}
+
+/// one output of the transformer -> spec `out` record
+fn project<Key, Ev>(route: &Route, r: Result<MarketEvent<Key, Ev>, DataError>) -> Value
+where
+    Key: KeyNum,
+    Ev: Proj,
+{
     let prefix = unid_prefix();
-    for r in results {
-        out.push(match r {
+    {
+        match r {
             Ok(ev) => match ev.kind.proj() {
                 Err(text) => err(text),
                 Ok((p, a, s, inner)) => {
@@ -974,7 +1026,7 @@ where
             },
             Err(DataError::Socket(s)) if s.starts_with(&prefix) => unid(),
             Err(e) => err(format!("error: {e}")),
-        });
+        }
     }
 }
 
@@ -996,9 +1048,10 @@ struct Ctx {
 }
 
 impl Ctx {
-    fn line(&mut self, route: &Route, fl: &str, a: &str, markets: &[usize], off: i64, m: usize, fs: &[Item], out: Vec<Value>, detail: Value) {
+    /// `x` = (repeated market, kind of repetition, buffered)
+    fn line(&mut self, route: &Route, fl: &str, a: &str, markets: &[usize], off: i64, x: (usize, i64, bool), m: usize, fs: &[Item], out: Vec<Value>, detail: Value) {
         let fsj: Vec<Value> = fs.iter().map(|x| x.json()).collect();
-        self.out.line(&json!({"a": a, "c": route.c(), "fl": fl, "S": markets, "off": off, "m": m, "fs": fsj, "out": out}));
+        self.out.line(&json!({"a": a, "c": route.c(), "fl": fl, "S": markets, "off": off, "d": x.0, "dk": x.1, "buf": x.2, "m": m, "fs": fsj, "out": out}));
         if let Some(d) = self.details.as_mut() {
             let n = self.out.lines;
             d.line(&json!({"line": n, "a": a, "route": route.name(), "fl": fl, "detail": detail}));
@@ -1045,20 +1098,21 @@ where
 
     // one step of a scenario / of the random driver
     macro_rules! step {
-        ($a:expr, $markets:expr, $off:expr, $m:expr, $fs:expr) => {{
-            let (a, markets, off, m, fs): (&str, Vec<usize>, i64, usize, Vec<Item>) = ($a, $markets, $off, $m, $fs);
+        ($a:expr, $markets:expr, $off:expr, $x:expr, $m:expr, $fs:expr) => {{
+            let (a, markets, off, x, m, fs): (&str, Vec<usize>, i64, (usize, i64, bool), usize, Vec<Item>) = ($a, $markets, $off, $x, $m, $fs);
+            const NOX: (usize, i64, bool) = (0, 0, false);
             match a {
                 "Subscribe" => {
                     live = None;
                     let attempt = if sub_failures.len() >= 3 {
                         Err(format!("{} (not retried)", sub_failures[0]))
                     } else {
-                        subscribe::<E, I, K>(route, &kind, &uni, names, &list, &markets, off, bfx).await
+                        subscribe::<E, I, K>(route, &kind, &uni, names, &list, &markets, off, (x.0, x.1), bfx).await
                     };
                     match attempt {
                         Ok(sess) => {
                             let d = json!({"requests": sess.requests, "internal_subscription_ids": sess.map_ids, "venue_channel_ids": sess.chan,
-                                           "instruments": markets.iter().map(|m| format!("{} (key {}, venue symbol {})", uni[*m - 1], key_of(*m, off), list[*m - 1].echo)).collect::<Vec<_>>()});
+                                           "subscriptions_in_order": slots_of(&markets, off, x.0, x.1).iter().map(|(m, k)| format!("{} (key {}, venue symbol {})", uni[*m - 1], k, list[*m - 1].echo)).collect::<Vec<_>>()});
                             if let Some(mm) = &sess.request_mismatch {
                                 ctx.bump(&key, "request_mismatch", 1);
                                 let e = ctx.stats.get_mut(&key).unwrap();
@@ -1067,25 +1121,25 @@ where
                                 }
                             }
                             live = Some(Live { sess, markets: markets.clone() });
-                            ctx.line(route, fl, a, &markets, off, 0, &[], vec![], d);
+                            ctx.line(route, fl, a, &markets, off, (x.0, x.1, false), 0, &[], vec![], d);
                         }
                         Err(e) => {
                             if sub_failures.len() < 3 && !e.starts_with("subscription refused") {
                                 sub_failures.push(e.clone());
                             }
-                            ctx.line(route, fl, a, &markets, off, 0, &[], vec![err(e.clone())], json!({"error": e}))
+                            ctx.line(route, fl, a, &markets, off, (x.0, x.1, false), 0, &[], vec![err(e.clone())], json!({"error": e}))
                         }
                     }
                     ctx.bump(&key, "subscribes", 1);
                 }
                 "Disconnect" => {
                     live = None;
-                    ctx.line(route, fl, a, &[], 0, 0, &[], vec![], json!({}));
+                    ctx.line(route, fl, a, &[], 0, NOX, 0, &[], vec![], json!({}));
                 }
                 "Message" => {
                     let Some(l) = live.as_mut() else {
                         // the subscription of this session failed (already reported on its line)
-                        ctx.line(route, fl, a, &[], 0, m, &fs, vec![err("no session: the subscription failed".to_string())], json!({}));
+                        ctx.line(route, fl, a, &[], 0, (0, 0, x.2), m, &fs, vec![err("no session: the subscription failed".to_string())], json!({}));
                         continue;
                     };
                     let mk = &list[m - 1];
@@ -1098,7 +1152,11 @@ where
                         n_msg += 1;
                         let text = payload(route, mk, &g, l.sess.seq[m - 1], chan, n_msg);
                         let before = out.len();
-                        feed(route, &mut l.sess.transformer, &text, &mut out);
+                        if x.2 {
+                            feed_buffered(route, &mut l.sess.transformer, std::slice::from_ref(&text), &mut out);
+                        } else {
+                            feed(route, &mut l.sess.transformer, &text, &mut out);
+                        }
                         if route.sk == SK::L2 && out[before..].iter().any(|o| o["k"] == "ev") {
                             l.sess.seq[m - 1] += 1;
                         }
@@ -1109,14 +1167,14 @@ where
                     for o in &out {
                         ctx.bump(&key, &format!("out_{}", o["k"].as_str().unwrap_or("?")), 1);
                     }
-                    ctx.line(route, fl, a, &[], 0, m, &fs, out, json!({"venue_messages": texts, "market": format!("{} (venue symbol {})", uni[m - 1], mk.echo)}));
+                    ctx.line(route, fl, a, &[], 0, (0, 0, x.2), m, &fs, out, json!({"buffered": x.2, "venue_messages": texts, "market": format!("{} (venue symbol {})", uni[m - 1], mk.echo)}));
                 }
                 other => usage(&format!("unknown step {other}")),
             }
         }};
     }
 
-    let reset = |ctx: &mut Ctx| ctx.line(route, fl, "Reset", &[], 0, 0, &[], vec![], json!({}));
+    let reset = |ctx: &mut Ctx| ctx.line(route, fl, "Reset", &[], 0, (0, 0, false), 0, &[], vec![], json!({}));
 
     match std::mem::replace(&mut ctx.work, Work::Scenarios(vec![])) {
         Work::Scenarios(scns) => {
@@ -1135,7 +1193,8 @@ where
                     if route.sk != SK::L1 {
                         fs.iter_mut().for_each(|f| f.only = false);
                     }
-                    step!(s(e, "a"), markets, e["off"].as_i64().unwrap_or(0), e["m"].as_u64().unwrap_or(0) as usize, fs);
+                    let x = (e["d"].as_u64().unwrap_or(0) as usize, e["dk"].as_i64().unwrap_or(0), e["buf"].as_bool().unwrap_or(false));
+                    step!(s(e, "a"), markets, e["off"].as_i64().unwrap_or(0), x, e["m"].as_u64().unwrap_or(0) as usize, fs);
                 }
             }
             ctx.work = Work::Scenarios(scns);
@@ -1158,16 +1217,22 @@ where
                         1 => (1..=NMARKETS).collect(),
                         _ => (1..=NMARKETS).filter(|_| rng.random_bool(0.5)).collect(),
                     };
-                    step!("Subscribe", markets, rng.random_range(0..NMARKETS as i64), 0, vec![]);
+                    // one subscription in three repeats one of its markets (twice in a row)
+                    let dup = if !markets.is_empty() && rng.random_range(0..3) == 0 {
+                        (markets[rng.random_range(0..markets.len())], rng.random_range(1..=2), false)
+                    } else {
+                        (0, 0, false)
+                    };
+                    step!("Subscribe", markets, rng.random_range(0..NMARKETS as i64), dup, 0, vec![]);
                 } else if rng.random_range(0..12) == 0 {
-                    step!("Disconnect", vec![], 0, 0, vec![]);
+                    step!("Disconnect", vec![], 0, (0, 0, false), 0, vec![]);
                 } else {
                     let m = rng.random_range(1..=NMARKETS);
                     let n = if route.array() { [1, 1, 2, 3][rng.random_range(0..4)] } else { 1 };
                     let fs: Vec<Item> = (0..n)
                         .map(|_| Item { p: [2, 6, 10, 14, 401][rng.random_range(0..5)], a: [1, 5, 9, 4000][rng.random_range(0..4)], buy: rng.random_bool(0.5), only: route.sk == SK::L1 && rng.random_range(0..3) == 0, t: rng.random_range(0..=9) })
                         .collect();
-                    step!("Message", vec![], 0, m, fs);
+                    step!("Message", vec![], 0, (0, 0, rng.random_range(0..3) == 0), m, fs);
                 }
             }
             ctx.work = Work::Random { seed, steps };
